@@ -203,7 +203,7 @@ def run_kani(prop, tier, hs, jobs):
     try:
         res['injected'] = scratch.injected
         names = [h['full'] for h in hs]
-        default_to = 600 if tier == 'quick' else 3600
+        default_to = 850 if tier == 'quick' else 3600
         to = max([h['timeout'] or default_to for h in hs])
         export = os.path.join(scratch.dir, 'export.json')
         rc, out, wall = scratch.cargo_kani(names, jobs=jobs, harness_timeout=to, export=export, overall_timeout=to * 3 + 600)
